@@ -10,12 +10,14 @@ from .core import *
 from .ir import ZERO, ONE, const
 
 SC = ['Dual', 'Dual2', 'Dual3', 'HyperDual', 'HyperHyperDual']
-VEC_QUICK = ['DualVec2', 'Dual2VecD2', 'HyperDualVec21']
+VEC_QUICK = ['DualVec1', 'DualVec2', 'DualVec3', 'DualVecD2', 'Dual2Vec1', 'Dual2Vec2', 'Dual2VecD2',
+             'HyperDualVec11', 'HyperDualVec21', 'HyperDualVec12', 'HyperDualVec22', 'HyperDualVec23',
+             'HyperDualVecD22']
 VEC_ALL = ['DualVec1', 'DualVec2', 'DualVec3', 'DualVec4', 'DualVec6', 'DualVecD2', 'DualVecD4', 'DualVecD6',
            'Dual2Vec1', 'Dual2Vec2', 'Dual2Vec3', 'Dual2Vec4', 'Dual2VecD2', 'Dual2VecD4',
            'HyperDualVec11', 'HyperDualVec21', 'HyperDualVec12', 'HyperDualVec22', 'HyperDualVec23',
            'HyperDualVec33', 'HyperDualVec42', 'HyperDualVecD22', 'HyperDualVecD33']
-NEST_QUICK = ['Dual2<Dual>']
+NEST_QUICK = ['Dual<Dual>', 'Dual2<Dual>', 'Dual<Dual2>', 'HyperDual<Dual>', 'Dual3<Dual>', 'Dual<Dual<Dual>>']
 NEST_ALL = ['Dual<Dual>', 'Dual2<Dual>', 'Dual<Dual2>', 'HyperDual<Dual>', 'Dual3<Dual>', 'Dual<Dual<Dual>>',
             'DualVec2<Dual>', 'Dual<DualVec2>', 'Dual2VecD2<Dual>']
 
@@ -441,7 +443,9 @@ def kind_domain(case, res, terms):
 # ---------------------------------------------------------------------------------------------
 # C07 absent == zero
 # ---------------------------------------------------------------------------------------------
-C07_SHAPES_QUICK = ['DualVec2', 'DualVecD2', 'Dual2VecD2', 'HyperDualVec21']
+C07_SHAPES_QUICK = ['DualVec1', 'DualVec2', 'DualVec3', 'DualVecD2', 'Dual2Vec1', 'Dual2Vec2', 'Dual2VecD2',
+                    'HyperDualVec11', 'HyperDualVec21', 'HyperDualVec12', 'HyperDualVec22', 'HyperDualVecD22',
+                    'DualVec2<Dual>', 'Dual<DualVec2>', 'Dual2VecD2<Dual>']
 C07_SHAPES_ALL = ['DualVec1', 'DualVec2', 'DualVec3', 'DualVec6', 'DualVecD2', 'DualVecD6', 'Dual2Vec1', 'Dual2Vec2',
                   'Dual2Vec4', 'Dual2VecD2', 'Dual2VecD4', 'HyperDualVec11', 'HyperDualVec21', 'HyperDualVec12',
                   'HyperDualVec22', 'HyperDualVec33', 'HyperDualVecD22', 'HyperDualVecD33',
